@@ -13,6 +13,7 @@
 -/
 import KadDHT.Model.Sched
 import KadDHT.Proofs.Bits
+import KadDHT.Model.Schedule
 namespace KadDHT.C17
 open KadDHT KadDHT.Sched
 
@@ -336,5 +337,118 @@ example : timeBetween 100 90 10 = 20 ∧ timeBetween 100 10 10 = 100 := by decid
 example : slot 1000 [false, true, true] [false, false] = 250 ∧ slot 1000 [false, true, true] [false, false, true] = 250 ∧ slot 1000 [false, true, true] [true] = 500 := by decide
 example : batched [1] [.stop 1, .start false 2, .stop 2, .start true 1, .once 3, .stop 4] = [1] := by decide
 example : sequential [1] [.stop 1, .start false 2, .stop 2, .start true 1, .once 3, .stop 4] = [1] := by decide
+
+/-! ### the reprovide schedule: every kept key stays scheduled, and the schedule stays prefix-free -/
+
+section schedule
+open KadDHT.Schedule
+
+def PrefixFree (S : Sched) : Prop := S.Pairwise fun a b => isPre a b = false ∧ isPre b a = false
+
+theorem covered_iff (S : Sched) (k : Key) : covered S k = true ↔ ∃ q ∈ S, isPre q k = true := by
+  simp [covered, List.any_eq_true]
+
+/-- scheduling a prefix never takes a key out of the schedule, and puts every key below the prefix into it -/
+theorem schedule_covers (S : Sched) (p k : Key) :
+    (covered S k = true → covered (schedule S p) k = true) ∧ (isPre p k = true → covered (schedule S p) k = true) := by
+  unfold schedule
+  split
+  · rename_i h
+    refine ⟨id, ?_⟩
+    intro hpk
+    obtain ⟨q, hq, hqp⟩ := List.any_eq_true.1 h
+    exact (covered_iff S k).2 ⟨q, hq, isPre_trans hqp hpk⟩
+  · constructor
+    · intro hc
+      obtain ⟨q, hq, hqk⟩ := (covered_iff S k).1 hc
+      rw [covered_iff]
+      by_cases hpq : isPre p q = true
+      · exact ⟨p, by simp, isPre_trans hpq hqk⟩
+      · exact ⟨q, List.mem_append.2 (Or.inl (List.mem_filter.2 ⟨hq, by simpa using hpq⟩)), hqk⟩
+    · intro hpk
+      exact (covered_iff _ k).2 ⟨p, by simp, hpk⟩
+
+theorem schedule_prefixFree (S : Sched) (p : Key) (h : PrefixFree S) : PrefixFree (schedule S p) := by
+  unfold schedule
+  split
+  · exact h
+  · rename_i hno
+    unfold PrefixFree unscheduleSubsumed
+    rw [List.pairwise_append]
+    refine ⟨h.sublist List.filter_sublist, by simp, ?_⟩
+    intro q hq x hx
+    simp only [List.mem_singleton] at hx
+    subst hx
+    have hq' := List.mem_filter.1 hq
+    refine ⟨?_, by simpa using hq'.2⟩
+    -- q is not a prefix of x: no scheduled prefix covered x
+    cases hqx : isPre q x with
+    | false => rfl
+    | true => exact absurd (List.any_eq_true.2 ⟨q, hq'.1, hqx⟩) hno
+
+theorem foldl_schedule_covers (rs : List Key) : ∀ (S : Sched) (k : Key),
+    (covered S k = true ∨ ∃ r ∈ rs, isPre r k = true) → covered (rs.foldl schedule S) k = true := by
+  induction rs with
+  | nil => intro S k h; rcases h with h | ⟨_, hr, _⟩; exact h; cases hr
+  | cons r rs ih =>
+    intro S k h
+    simp only [List.foldl_cons]
+    apply ih
+    rcases h with h | ⟨r', hr', hrk⟩
+    · exact Or.inl ((schedule_covers S r k).1 h)
+    · rcases List.mem_cons.1 hr' with rfl | hr'
+      · exact Or.inl ((schedule_covers S r' k).2 hrk)
+      · exact Or.inr ⟨r', hr', hrk⟩
+
+theorem foldl_schedule_prefixFree (rs : List Key) : ∀ (S : Sched), PrefixFree S → PrefixFree (rs.foldl schedule S) := by
+  induction rs with
+  | nil => intro S h; exact h
+  | cons r rs ih => intro S h; exact ih _ (schedule_prefixFree S r h)
+
+/-- A batch reprovide keeps every kept key scheduled: a key outside the covered prefix keeps its scheduled prefix, and a
+    key below it is covered again by its region — every key below the covered prefix lies in exactly one region
+    (C18 `assign_exactly_one`), and a region that holds a kept key is a region with keys, hence rescheduled. -/
+theorem batchReprovide_keeps_covered (S : Sched) (c : Key) (regions : List Key) (k : Key)
+    (hk : covered S k = true) (hreg : isPre c k = true → ∃ r ∈ regions, isPre r k = true) :
+    covered (batchReprovide S c regions) k = true := by
+  unfold batchReprovide
+  apply foldl_schedule_covers
+  by_cases hck : isPre c k = true
+  · exact Or.inr (hreg hck)
+  · left
+    obtain ⟨q, hq, hqk⟩ := (covered_iff S k).1 hk
+    refine (covered_iff _ k).2 ⟨q, List.mem_filter.2 ⟨hq, ?_⟩, hqk⟩
+    cases hcq : isPre c q with
+    | false => rfl
+    | true => exact absurd (isPre_trans hcq hqk) hck
+
+theorem batchReprovide_prefixFree (S : Sched) (c : Key) (regions : List Key) (h : PrefixFree S) :
+    PrefixFree (batchReprovide S c regions) :=
+  foldl_schedule_prefixFree regions _ (h.sublist List.filter_sublist)
+
+/-- The repaired individual reprovide does not touch the schedule at all: the scheduled prefix `p` covers whatever the
+    lookup covered below it. -/
+theorem individualReprovide_keeps_schedule (S : Sched) (p c : Key) (hp : p ∈ S) (hpc : c.length ≥ p.length → isPre p c = true) :
+    individualReprovide S p c = S := by
+  unfold individualReprovide schedule
+  split
+  · rename_i hl
+    have : (S.any (isPre · c)) = true := List.any_eq_true.2 ⟨p, hp, hpc hl⟩
+    simp only [this, ↓reduceIte]
+  · have : (S.any (isPre · p)) = true := List.any_eq_true.2 ⟨p, hp, isPre_refl p⟩
+    simp only [this, ↓reduceIte]
+
+/-- As it was (F20): reproviding the one key of `11` when the lookup covers `1` drops the sibling `10` from the schedule,
+    although nothing below `10` was reprovided; its keys wait for the slot of `1`. -/
+theorem individualReprovideLegacy_drops_sibling :
+    individualReprovideLegacy [[true, true], [true, false], [false, true]] [true, true] [true] = [[false, true], [true]] := by
+  decide
+
+example : individualReprovide [[true, true], [true, false], [false, true]] [true, true] [true] =
+    [[true, true], [true, false], [false, true]] := by decide
+example : PrefixFree [[true, true], [true, false], [false, true]] := by simp [PrefixFree, isPre]
+example : batchReprovide [[true, true], [true, false], [false, true]] [true] [[true]] = [[false, true], [true]] := by decide
+
+end schedule
 
 end KadDHT.C17
